@@ -17,8 +17,8 @@ From J5V.gen Require Id62Gen RulesGen.
 From J5V.proofs Require Import RulesProofs RulesGenProofs RegexProofs RulesRegexProofs.
 From J5V.model Require Import RulesRead RulesEnum RulesNested RulesNestedSem RulesOneof RulesInlineEnum.
 From J5V.proofs Require Import RulesNestedSemProofs RulesOneofProofs.
-From J5V.model Require Import RulesCompile.
-From J5V.proofs Require Import RulesCompileProofs.
+From J5V.model Require Import RulesCompile RulesCompileTree.
+From J5V.proofs Require Import RulesCompileProofs RulesCompileTreeProofs.
 Import ListNotations.
 Local Open Scope N_scope.
 
@@ -391,6 +391,21 @@ Proof.
                   env Hwf s path name m v Hev Hw Hty).
 Qed.
 Print Assumptions C12_nested.
+
+(* ... and over the compiler with its front checks ([compile_schema]: every declared
+   property of the tree passes front_checks and the enum default-filter check, the proto
+   field names of each schema are pairwise different; then write_schema): no hypothesis on
+   patterns / uniqueItems is left, [tree_quant] only restricts the quantifier (primaryKey on
+   singular keys, oneof options declared as members) *)
+Theorem C12_nested_full :
+  forall re_ok re_match pat_sem, engine_ok re_ok re_match pat_sem ->
+  forall env s path name m v,
+    wf_env env = true -> tree_quant s = true ->
+    compile_schema re_ok env path name s = Ok m -> typed_tree s v = true ->
+    (validate_tree re_ok re_match (defined_numbers env) (c12_view m) v = VAccept <-> rule_tree pat_sem env s v) /\
+    (validate_tree re_ok re_match (defined_numbers env) (c12_view m) v = VReject <-> ~ rule_tree pat_sem env s v).
+Proof. exact c12_compiled_tree. Qed.
+Print Assumptions C12_nested_full.
 
 Theorem C12_nested_spec_decided : forall re_match pat_sem,
   (forall p s, re_match p s = true <-> pat_sem p s) ->
